@@ -286,7 +286,9 @@ def logics_on_path(path, rules):
         m, rules = patching._match_row_to_rules(r, rules)
         if not m:
             break
-        out.append(m["attrs"]["logic"].__name__)
+        # the logic the RULE TEXT asks for: %ordered / %rewrite decide it whatever %logic says
+        raw = str(m.get("raw_rule", ""))
+        out.append("ordered" if "%ordered" in raw else "rewrite" if "%rewrite" in raw else m["attrs"]["logic"].__name__)
     return out
 
 
